@@ -278,6 +278,38 @@ theorem scratch_shape_monotone {R : Type} [Field R] [LinearOrder R] [IsStrictOrd
     apply div_le_div_of_nonneg_right _ (le_of_lt (mul_pos h1 h3))
     exact mul_le_mul_of_nonneg_right (mul_le_mul_of_nonneg_left hwl hz.le) hosR.le
 
+/-- **The whole outcome is scale covariant.** Multiplying every length by `k ≠ 0` changes nothing but the reported wavelength,
+which is multiplied by `k`: same refusal or acceptance, same grid, same output shape, same field. -/
+theorem propagateFft_scale_covariant {K R : Type} [Field R] [RealLike R] [FftLike R] [Add K] [Mul K] [Zero K] [CxLike K R]
+    (hminmul : ∀ k a b : R, FftLike.min (k * a) (k * b) = k * FftLike.min a b)
+    (one : K) (fs : List (Fld K)) (ht : Bool) (W0 W1 : Int) (k dx0 dx1 du0 du1 wl z : R) (os : Int)
+    (shape : Option (Int × Int)) (scratch : Option (Arr K)) (hk : k ≠ 0) :
+    (∀ lam S0 S1 so g, propagateFft one fs ht W0 W1 dx0 dx1 du0 du1 wl z os shape scratch = FftOut.ok lam S0 S1 so g →
+      propagateFft one fs ht W0 W1 (k * dx0) (k * dx1) (k * du0) (k * du1) (k * wl) (k * z) os shape scratch = FftOut.ok (k * lam) S0 S1 so g) ∧
+    (propagateFft one fs ht W0 W1 dx0 dx1 du0 du1 wl z os shape scratch = FftOut.valueError →
+      propagateFft one fs ht W0 W1 (k * dx0) (k * dx1) (k * du0) (k * du1) (k * wl) (k * z) os shape scratch = FftOut.valueError) ∧
+    (propagateFft one fs ht W0 W1 dx0 dx1 du0 du1 wl z os shape scratch = FftOut.notImplemented →
+      propagateFft one fs ht W0 W1 (k * dx0) (k * dx1) (k * du0) (k * du1) (k * wl) (k * z) os shape scratch = FftOut.notImplemented) := by
+  have hS := (fft_scale_invariant hminmul k dx0 dx1 du0 du1 z wl os 0 0 hk).1
+  have hW := fun S0 S1 => (fft_scale_invariant hminmul k dx0 dx1 du0 du1 z wl os S0 S1 hk).2
+  unfold propagateFft
+  cases ht with
+  | true => simp
+  | false =>
+    simp only [Bool.false_eq_true, if_false, hS, hW]
+    cases hb : shapeTooBig (R := R) shape (fftShape dx0 dx1 du0 du1 z wl os) os with
+    | true => simp
+    | false =>
+      cases hs : scratchTooSmall scratch (fftShape dx0 dx1 du0 du1 z wl os) with
+      | true => simp
+      | false =>
+        simp only [Bool.false_eq_true, if_false]
+        refine ⟨?_, (fun h => by cases h), (fun h => by cases h)⟩
+        intro lam S0 S1 so g h
+        simp only [FftOut.ok.injEq] at h ⊢
+        obtain ⟨h1, h2, h3, h4, h5⟩ := h
+        exact ⟨by rw [h1], h2, h3, h4, h5⟩
+
 /-! ## The FFT path is the unitary DFT with alpha = 1/S, centred at floor(S/2), for even and odd grids -/
 section fftdft
 set_option linter.unusedSectionVars false
@@ -293,7 +325,7 @@ theorem fft_path_is_unitary_dft (hcast : ∀ n : Int, (RealLike.ofInt n : R) = (
     (hnorm : (RealLike.ofInt 1 : R) / RealLike.sqrt (RealLike.ofInt (x.s0 * x.s1)) =
       RealLike.sqrt (RealLike.abs (1 / (x.s0 : R) * (1 / (x.s1 : R))))) (u v : Int) :
     (fft2c (R := R) x).get u v = (dft2 x (1 / (x.s0 : R)) (1 / (x.s1 : R)) x.s0 x.s1 0 0 0 0 true).get u v := by
-  simp only [fft2c, fft2Ortho, dft2, if_true]
+  simp only [fft2c, fft2Ortho, dft2, if_true, (fft2_composition _ _).1, (fft2_composition _ _).2.1, (fft2_composition 0 0).2.2, fft2Scale]
   rw [hnorm, fft_sum_eq_dft_sum hcast hper x hS0 hS1 u v]
 
 variable [FftLike R]
